@@ -133,6 +133,59 @@ def ob_too_long(n, second=None):
     return decide(f'too_long n={n}', [], viol, ks, _cells_extract(cells), TO, second=second, bounds={'n': n})
 
 
+def ob_wrapper(k, pytype, second=None):
+    """The Python-level entry points gambit.kmers.kmer_to_index / kmer_to_index_rc (seq_to_bytes + kernel) for each of the
+    four sequence types: same coding, same rejection, as the kernels."""
+    ks = KSession()
+    seq, cells = sym_bytes('b', k, pytype)
+    pre = [z3.ULT(c, 128) for c in cells] if pytype in ('str', 'Seq') else []
+    o1 = ks.call(ks.lookup('gambit.kmers', 'kmer_to_index'), seq)
+    o2 = ks.call(ks.lookup('gambit.kmers', 'kmer_to_index_rc'), seq)
+    valid = S.valid_kmer(cells)
+    spec1, spec2 = S.kmer_index(cells), S.kmer_index(S.revcomp(cells))
+    r1 = o1.ret.z3() if isinstance(o1.ret, CVal) else z3.BitVecVal(0, 64)
+    r2 = o2.ret.z3() if isinstance(o2.ret, CVal) else z3.BitVecVal(0, 64)
+    viol = lor(land(valid, lor(o1.raised, o2.raised, r1 != spec1, r2 != spec2)),
+               land(lnot(valid), lor(lnot(o1.raises('ValueError')), lnot(o2.raises('ValueError')))))
+    ex = lambda m: {'kmer_hex': model_bytes(m, cells).hex(), 'type': pytype}
+    return decide(f'wrapper k={k} type={pytype}', pre, viol, ks, ex, TO, second=second,
+                  reach_goals=[('valid-input', valid), ('invalid-input', z3.Not(valid))], bounds={'k': k, 'type': pytype})
+
+
+def ob_tables(second=None):
+    """nkmers(k) = 4^k and index_dtype(k) = the smallest unsigned dtype holding 4^k - 1, for k = 1..32 (None above);
+    KmerSpec derives its attributes from them.  Concrete evaluation of the translated source (no free variables)."""
+    import numpy as np
+    ks = KSession()
+    bad = []
+    for k in range(1, 35):
+        n = ks.call(ks.lookup('gambit.kmers', 'nkmers'), k).ret
+        dt = ks.call(ks.lookup('gambit.kmers', 'index_dtype'), k).ret
+        want = None if k > 32 else np.dtype(S.index_dtype_str(k))
+        if n != 4 ** k or dt != want:
+            bad.append((k, n, str(dt)))
+    for k, prefix in ((1, 'A'), (4, 'AT'), (5, 'ATG'), (8, 'atgac'), (9, 'T'), (16, 'AC'), (17, 'ACGT'), (32, 'G')):
+        o = ks.call(ks.lookup('gambit.kmers', 'KmerSpec'), k, prefix)
+        f = o.ret.fields if o.ret is not UNSET else {}
+        want = dict(k=k, prefix=prefix.upper().encode(), prefix_str=prefix.upper(), prefix_len=len(prefix), total_len=k + len(prefix), nkmers=4 ** k,
+                    index_dtype=np.dtype(S.index_dtype_str(k)))
+        if o.raised is not False or any(f.get(a) != v for a, v in want.items()):
+            bad.append(('KmerSpec', k, prefix, {a: str(f.get(a)) for a in want}))
+    for k, prefix in ((0, 'A'), (3, 'AN'), (3, 'A-')):
+        o = ks.call(ks.lookup('gambit.kmers', 'KmerSpec'), k, prefix)
+        if o.raised is not True:
+            bad.append(('KmerSpec accepted', k, prefix))
+    res = {'name': 'tables: nkmers / index_dtype / KmerSpec attributes', 'queries': [{'q': 'concrete evaluation', 'result': 'unsat' if not bad else 'sat', 'time_s': 0.0}],
+           'bounds': {'k': '1..34'}, 'encoded': ks.encoded, 'reach': 'sat', 'sample': {'k': 9, 'index_dtype': 'u4', 'nkmers': 4 ** 9}}
+    if bad:
+        res['status'] = VIOLATED
+        res['cex'] = {'tables': [str(b) for b in bad[:5]]}
+        res['cex_kind'] = 'concrete'
+    else:
+        res['status'] = HOLDS
+    return res
+
+
 # ------------------------------------------------------------------------------------------------ replay
 
 def replay_cex(kind, cex):
@@ -156,6 +209,34 @@ def replay_cex(kind, cex):
             return (type(e).__name__, None)
 
     bad = []
+    if 'tables' in cex:
+        import numpy as np
+        import gambit.kmers as gk
+        for k in range(1, 35):
+            want = None if k > 32 else np.dtype(S.index_dtype_str(k))
+            if gk.nkmers(k) != 4 ** k or gk.index_dtype(k) != want:
+                bad.append(f'nkmers({k})={gk.nkmers(k)} index_dtype({k})={gk.index_dtype(k)}')
+        for k, prefix in ((4, 'AT'), (8, 'atgac'), (9, 'T'), (17, 'ACGT')):
+            sp = gk.KmerSpec(k, prefix)
+            if (sp.k, sp.prefix, sp.prefix_len, sp.total_len, sp.nkmers, sp.index_dtype) != (k, prefix.upper().encode(), len(prefix), k + len(prefix), 4 ** k, np.dtype(S.index_dtype_str(k))):
+                bad.append(f'KmerSpec({k},{prefix!r}) attributes {sp.__dict__ if hasattr(sp, "__dict__") else sp}')
+        return bool(bad), {'how': 'real gambit.kmers', 'mismatches': bad}
+    if 'type' in cex and 'kmer_hex' in cex:
+        import gambit.kmers as gk
+        from Bio.Seq import Seq
+        b = bytes.fromhex(cex['kmer_hex'])
+        conv = {'bytes': bytes, 'bytearray': bytearray, 'str': lambda x: x.decode('latin-1'), 'Seq': lambda x: Seq(bytes(x))}[cex['type']]
+        for fn, spec in (('kmer_to_index', S.py_kmer_index(b)), ('kmer_to_index_rc', S.py_kmer_index(S.py_revcomp(b)))):
+            try:
+                got = ('ok', getattr(gk, fn)(conv(b)))
+            except ValueError:
+                got = ('ValueError', None)
+            except Exception as e:   # noqa
+                got = (type(e).__name__, None)
+            want = ('ok', spec) if spec is not None else ('ValueError', None)
+            if got != want:
+                bad.append(f'gambit.kmers.{fn}({conv(b)!r}) -> {got}; expected {want}')
+        return bool(bad), {'how': 'real gambit.kmers wrappers', 'mismatches': bad}
     if 'kmer_hex' in cex:
         b = bytes.fromhex(cex['kmer_hex'])
         if kind.startswith(('encode', 'roundtrip', 'too_long')):
@@ -271,6 +352,10 @@ def main(tier):
         specs.append(('props.C07', 'ob_revcomp', {'n': n, 'second': second}))
     for n in (33, 34) + ((35, 40) if tier == 'thorough' else ()):
         specs.append(('props.C07', 'ob_too_long', {'n': n, 'second': second}))
+    for k in ((1, 2, 3, 5, 8, 16, 32) if tier == 'quick' else (1, 2, 3, 4, 5, 8, 11, 12, 16, 24, 32)):
+        for pytype in ('bytes', 'bytearray', 'str', 'Seq'):
+            specs.append(('props.C07', 'ob_wrapper', {'k': k, 'pytype': pytype, 'second': None}))
+    specs.append(('props.C07', 'ob_tables', {}))
     # largest first so that the pool is balanced
     specs.sort(key=lambda s: -(s[2].get('k') or s[2].get('n') or 0))
     results = run_pool(specs, budget_s=1500 if tier == 'thorough' else 600)
